@@ -672,6 +672,10 @@ class Machine:
             return r
         if k == 'discr':
             v = self.read_place(frame, rv.a)
+            if hasattr(v, 'force'):
+                # lazily typed enum over a node of symbolic kind: inspecting the variant forks over the kinds (one path per kind)
+                v = v.force(self)
+                self.store(self.place_ref(frame, rv.a), v)
             d = self.discriminant(v)
             info = int_info(dest_ty) if dest_ty else None
             if info and not is_sym(d):
